@@ -72,12 +72,17 @@ Llf(l) == l[13]
 IsSep(l) == Lkind(l) \in {"s", "d"}
 SkoolSyntax(c) == c.tool \in {"skool", "gen"}
 
+\* first index in a..b of a line whose kind is not in K (b+1 if there is none; a if a > b).  The range is
+\* halved, so the recursion is log(n) deep and the cost is that of the run it skips.
+RECURSIVE FirstNotIn(_, _, _, _)
+FirstNotIn(o, a, b, K) == IF a > b THEN a ELSE IF a = b THEN (IF Lkind(o[a]) \in K THEN a + 1 ELSE a)
+                          ELSE LET m == (a + b) \div 2
+                                   f == FirstNotIn(o, a, m, K)
+                               IN IF f <= m THEN f ELSE FirstNotIn(o, m + 1, b, K)
 \* first index >= li that is not a separator line (Len+1 if none)
-RECURSIVE SkipSeps(_, _)
-SkipSeps(o, li) == IF li <= Len(o) /\ IsSep(o[li]) THEN SkipSeps(o, li + 1) ELSE li
+SkipSeps(o, li) == FirstNotIn(o, li, Len(o), {"s", "d"})
 \* last index of the maximal run of lines of one kind that starts at p (p-1 if there is none)
-RECURSIVE RunEnd(_, _, _)
-RunEnd(o, p, kind) == IF p <= Len(o) /\ Lkind(o[p]) = kind THEN RunEnd(o, p + 1, kind) ELSE p - 1
+RunEnd(o, p, kind) == FirstNotIn(o, p, Len(o), {kind}) - 1
 \* rows of an instruction group of k instructions starting at p: up to the row before instruction k+1
 GroupEnd(o, p, k) ==
   LET r == RunEnd(o, p, "i")
@@ -155,7 +160,7 @@ JudgeG(c, it, p, q) ==
       \* item is a fixed prefix of its row, a rendered table is one unbreakable unit
       firsts == [j \in 1..n |-> 1 + Wr!SumSeq([i \in 1..(j - 1) |-> Len(Lw(rs[i]))])]
       starts == { it.st[s][1] : s \in 1..Len(it.st) }
-      stOf(j) == { s \in 1..Len(it.st) : it.st[s][1] = firsts[j] /\ Len(Lw(rs[j])) > 0 }
+      stOf(j) == IF it.st = <<>> THEN {} ELSE { s \in 1..Len(it.st) : it.st[s][1] = firsts[j] /\ Len(Lw(rs[j])) > 0 }
       fixAt(j) == IF stOf(j) = {} THEN 0 ELSE it.st[CHOOSE s \in stOf(j) : TRUE][2]
       units(j) == Len(Lw(rs[j])) - fixAt(j)
       blk == Len(it.st) > 0 \/ Len(it.tabs) > 0
